@@ -108,7 +108,10 @@ def probe(runner):
         user = xh.USERS[ui]
         login = (user + ":") if user else None
         if r[0] == "RPut" and cresp[0] == "S201" and cresp[1][0] == "CPEtagItem":
-            path = xh.path_str(r[1])
+            # the stored resource is an ITEM: address it without the ending slash the harness gives to names of its collection
+            # universe (an item may be called like one of them: PUT /u0/c2/ into a home that was turned into a calendar);
+            # a multiget href with an ending slash names no item and would report no ETag at all
+            path = xh.path_str(r[1], coll=False)
             put_etag = runner.last_response[1].get("ETag")
             st, h, _ = srv.request("GET", path, login=login)
             get_etag = h.get("ETag") if st == 200 else None
